@@ -643,6 +643,18 @@ func (ex *Exec) specCall(env *Env, e *ECall) *Value {
 			return ex.convert(env.st, x, types.Typ[types.Int], nil)
 		}
 		return &Value{T: types.Typ[types.Int], C: x.C}
+	case "u32", "i32", "u8", "u16", "u64", "i64":
+		// width conversion (bit-vector mode); identity on mathematical ints
+		x := arg(0)
+		if !x.C[0].Sort.IsBV() {
+			if x.C[0].ival != nil && ex.L.bv {
+				w := map[string]int{"u32": 32, "i32": 32, "u8": 8, "u16": 16, "u64": 64, "i64": 64}[e.Fun]
+				return &Value{T: bvType(e.Fun), C: []*Term{tb.BV(x.C[0].ival, w)}}
+			}
+			return &Value{T: types.Typ[types.Int], C: x.C}
+		}
+		to := bvType(e.Fun)
+		return &Value{T: to, C: []*Term{ex.bvResize(x.C[0], x.T, to)}}
 	case "wrap8":
 		return ex.specInt(tb.Mod(arg(0).C[0], tb.Int(256)))
 	case "wrap16":
@@ -915,4 +927,20 @@ func (ex *Exec) unboxTerm(t *Term) *Value {
 		}
 	}
 	return nil
+}
+
+func bvType(name string) types.Type {
+	switch name {
+	case "u8":
+		return types.Typ[types.Uint8]
+	case "u16":
+		return types.Typ[types.Uint16]
+	case "u32":
+		return types.Typ[types.Uint32]
+	case "i32":
+		return types.Typ[types.Int32]
+	case "u64":
+		return types.Typ[types.Uint64]
+	}
+	return types.Typ[types.Int64]
 }
